@@ -32,6 +32,7 @@ type GenParams struct {
 	FinalReopen            bool // end with a caught-up reopen
 	Idle                   bool // use idle merger cycles
 	NoPersistSteps         bool
+	SmallVals              bool     // no multi-KB values (keeps small batches small, for leveled compaction)
 	Lean                   bool     // no merger cycle without a new batch, no drain: an empty hand-over makes mossStore run a full (idle) compaction
 	PersistAfterBatchPct   int      // percentage of batches followed by a directed merge + persist
 	FirstWide              int      // the first batch gets this many extra generated keys (big-then-small histories)
@@ -103,6 +104,7 @@ func PartialCompactionProfile(r *Rng, cfg *Config, gp *GenParams) {
 	gp.PersistAfterBatchPct = 85
 	gp.Lean = true
 	gp.Idle = false
+	gp.SmallVals = true
 	if gp.MaxBatches < 10 {
 		gp.MaxBatches = 10
 	}
@@ -185,7 +187,7 @@ func (g *genState) val() []byte {
 	for i := 0; i < pad; i++ {
 		v = append(v, byte('a'+g.r.Intn(26)))
 	}
-	if g.r.Chance(1, 12) {
+	if !g.gp.SmallVals && g.r.Chance(1, 12) {
 		v = append(v, make([]byte, g.r.Pick(100, 4000, 4096, 9000))...)
 	}
 	return v
